@@ -139,6 +139,7 @@ type RunStats struct {
 	Known               map[string]int
 	Excluded            map[string]int
 	HooksSeen           map[string]int
+	MidIterAdvances     int
 }
 
 // Runner interprets a script against the cache and the model.
